@@ -56,7 +56,11 @@ func c05entries() []c05entry {
 		// never reaches the decoder and what follows sonic's own copy is not under the harness's
 		// control, so only the string entry points (decoded in place) are driven here
 		{"UnmarshalString:interface", func(s string) string { var v interface{}; err := sonic.UnmarshalString(s, &v); return r(v, err) }},
-		{"ConfigStd.UnmarshalString:interface", func(s string) string { var v interface{}; err := sonic.ConfigStd.UnmarshalFromString(s, &v); return r(v, err) }},
+		{"ConfigStd.UnmarshalString:interface", func(s string) string {
+			var v interface{}
+			err := sonic.ConfigStd.UnmarshalFromString(s, &v)
+			return r(v, err)
+		}},
 		{"Unmarshal:struct", func(s string) string { var v dAB; err := sonic.UnmarshalString(s, &v); return r(v, err) }},
 		{"Unmarshal:string", func(s string) string { var v string; err := sonic.UnmarshalString(s, &v); return r(v, err) }},
 		{"Unmarshal:float64", func(s string) string {
@@ -64,11 +68,19 @@ func c05entries() []c05entry {
 			err := sonic.UnmarshalString(s, &v)
 			return fmt.Sprintf("%x,%v", v, err == nil)
 		}},
-		{"Unmarshal:[]float64", func(s string) string { var v []float64; err := sonic.UnmarshalString(s, &v); return fmt.Sprintf("%x,%v", v, err == nil) }},
+		{"Unmarshal:[]float64", func(s string) string {
+			var v []float64
+			err := sonic.UnmarshalString(s, &v)
+			return fmt.Sprintf("%x,%v", v, err == nil)
+		}},
 		{"Unmarshal:int8", func(s string) string { var v int8; err := sonic.UnmarshalString(s, &v); return r(v, err) }},
 		{"Unmarshal:bool", func(s string) string { var v bool; err := sonic.UnmarshalString(s, &v); return r(v, err) }},
 		{"Unmarshal:skip-unknown-field", func(s string) string { var v skipDst; err := sonic.UnmarshalString(s, &v); return r(v, err) }},
-		{"Unmarshal:RawMessage", func(s string) string { var v json.RawMessage; err := sonic.UnmarshalString(s, &v); return r(string(v), err) }},
+		{"Unmarshal:RawMessage", func(s string) string {
+			var v json.RawMessage
+			err := sonic.UnmarshalString(s, &v)
+			return r(string(v), err)
+		}},
 		{"Get", func(s string) string {
 			n, err := sonic.Get(asBytes(s))
 			if err != nil {
